@@ -42,7 +42,8 @@ def _cex(mdl):
 
 
 
-def check_events(M, C, sizes, tails, candidates, base_case, pfx="anyL", domain=None, returned=None, full_box=None, extra_prem=None, tid=0, domains=None):
+def check_events(M, C, sizes, tails, candidates, base_case, pfx="anyL", domain=None, returned=None, full_box=None, extra_prem=None, tid=0, domains=None,
+                 returned_on_domain_only=False):
     """verification conditions for the recorded run.
        candidates(idx, tail) -> list of (description, rhs Sym, [Affs that must be >= 0])  specification relations that may define idx
        base_case(idx, tail)  -> Sym or None   (elements the specification gives in closed form / by a callee's contract)
@@ -107,6 +108,11 @@ def check_events(M, C, sizes, tails, candidates, base_case, pfx="anyL", domain=N
                     ((sidx, _e),) = Cx.items(mono)
                     senv[sidx] = S.expand(new)
         idx = tuple(pin(e) for e in w["idx"])
+        tshape = tuple(max(t[d] for t in tails) + 1 for d in range(len(tails[0])))
+        if tuple(w["value"].shape[-len(tshape):]) != tshape:
+            M._rec(name + "/value-has-the-trailing-shape-of-the-table", "failed", "run", 0.0, cex={"env": {}},
+                   detail="trailing shape %s, the table's is %s (points / primitives / segments lost or duplicated)" % (w["value"].shape, tshape))
+            continue
         for tail in tails:
             got = w["value"][(0,) * (w["value"].ndim - len(tail)) + tail]
             vg = subst.substitute_all(S.expand(S.lift(got)), senv)
@@ -157,7 +163,12 @@ def check_events(M, C, sizes, tails, candidates, base_case, pfx="anyL", domain=N
         for n, r in enumerate(returned):
             r = dict(r)
             r["seq"] = None
-            written_before(r, prem + [G._cons_z3(r["cons"], env)], "%s/returned-region%d/every-element-written-and-specified" % (pfx, n))
+            rp = prem + [G._cons_z3(r["cons"], env)]
+            if returned_on_domain_only:
+                # the returned view is a box that also contains elements the specification does not speak about (the caller
+                # selects inside the domain): the claim is about the returned elements that lie in the domain
+                rp = rp + [doms.get(r.get("tid", tid), dom)(env, *[e.z3(env) for e in r["idx"]])]
+            written_before(r, rp, "%s/returned-region%d/every-%selement-written-and-specified" % (pfx, n, "specified " if returned_on_domain_only else ""))
     else:
         kk, jj, ii = z3.Int("ck"), z3.Int("cj"), z3.Int("ci")
         box = full_box(env, kk, jj, ii)
@@ -786,3 +797,176 @@ class TwoElecRecursionsAnyL:
         ret_e = dict(kind="read", tid=1, idx=tuple(rv), loops=[], seq=None, bounds=[],
                      cons=[("ge", v, G.Aff.of(0)) for v in rv] + [("lt", rv[0] + rv[1] + rv[2], ls[2] + ls[3] + 1), ("lt", rv[3] + rv[4] + rv[5], ls[0] + ls[1] + 1)])
         check_events(M, C, sizes, tails, cand_e, base_e, pfx=pfx + "/transfer", domain=dom_e, tid=1, domains=doms, extra_prem=prem0, returned=[ret_e])
+
+
+def _dfact_atom(v):
+    """(n)!! for a symbolic integer expression n (an opaque positive atom; the specification side builds the same one)"""
+    return S.Sym.symbol("dfact[%s]" % alg.fmt(S.expand(S.lift(v)), 40), "pos")
+
+
+def gfactorial2(x):
+    if isinstance(x, G.GVal):
+        return x.map(_dfact_atom)
+    raise alg.Undecided("factorial2 of %r in a generic-element run" % (type(x),))
+
+
+class OneElecKernelAnyL(OneElecVerticalAnyL):
+    """_compute_one_elec_integrals as a WHOLE, for ALL l_a, l_b >= 0 and ANY Boys function F_m(T):
+
+      V[m, a]  vertical table        - as in OneElecVerticalAnyL
+      H[b, a]  horizontal table:       H[0, a]       = sum_{primitives} N_a N_b d_a d_b V[0, a]      N = (2 alpha/pi)^(3/4) (4 alpha)^(l/2)
+                                       H[b + 1_i, a] = H[b, a + 1_i] + (A_i - B_i) H[b, a]
+                                       on the domain |a| + |b| <= l_a + l_b,  b_i <= l_b
+      result[a_x, a_y, a_z, b_x, b_y, b_z, n, m_a, m_b] = H[b, a] / sqrt((2a_x-1)!! (2a_y-1)!! (2a_z-1)!! (2b_x-1)!! (2b_y-1)!! (2b_z-1)!!)
+                                       for a_i <= l_a, b_i <= l_b (claimed, and proved, on the domain; the caller selects |a| = l_a, |b| = l_b)
+
+    (4 alpha)^(l/2) and (2k-1)!! with a symbolic l / k are opaque positive atoms built identically on the specification side."""
+
+    function = "gbasis.integrals._one_elec_int._compute_one_elec_integrals (whole kernel; any angular momenta)"
+
+    def run(self, shape, M):
+        if not M.symbolic:
+            return self.native(shape, M)
+        import z3
+
+        mod = M.mods["gbasis.integrals._one_elec_int"]
+        Ka, Kb = shape["K"]
+        N = shape["N"]
+        Ma, Mb = shape.get("M", [2, 1])
+        A, B = M.vec("A", 3), M.vec("B", 3)
+        pts = M.vec("R", (N, 3))
+        ea, eb = M.vec("a", Ka, "pos"), M.vec("b", Kb, "pos")
+        da, db = M.vec("da", (Ka, Ma)), M.vec("db", (Kb, Mb))
+        sizes = ["la", "lb"]
+        la, lb = G.Aff.var("la"), G.Aff.var("lb")
+        C = G.Ctx(sizes)
+        C.allow_extent_exponents = True
+        G.CTX[0] = C
+
+        def boys(orders, T):
+            Tarr = np.asarray(T, dtype=object)
+            if not isinstance(orders, G.GIota) or orders.ndim != 4 or orders.axis != 0 or Tarr.ndim < 4 or Tarr.shape[-4] != 1:
+                raise alg.Undecided("Boys function called with orders / argument of an unexpected form")
+            data = np.empty(Tarr.shape, dtype=object)
+            for pos in itertools.product(*[range(n) for n in Tarr.shape]):
+                data[pos] = C.named_atom("F", G.Aff.var("p4"), pos[-3:])
+            return G.GVal(data, {4: [G.SymAxis(G.Aff.of(0), [orders.D])]}, [])
+
+        try:
+            with bind.patched((mod, "np", G.GNp(mod.np)), (mod, "range", G.grange), (mod, "factorial2", gfactorial2)):
+                out = mod._compute_one_elec_integrals(pts, boys, A, la, ea, da, B, lb, eb, db)
+        finally:
+            G.CTX[0] = None
+        pfx = "anyLcoulK"
+        M.true(pfx + "/returns-a-value-over-the-horizontal-table", isinstance(out, G.GVal) and C.ntab == 2 and len(out.reads) == 1, "two tables; the result is one slice of the second, scaled")
+        if not isinstance(out, G.GVal) or len(out.reads) != 1:
+            return
+        vt = list(itertools.product(range(N), range(Kb), range(Ka)))
+        ht = list(itertools.product(range(N), range(Ma), range(Mb)))
+
+        def geom(c, n, pb, pa):
+            a, b = ea[pa], eb[pb]
+            p = a + b
+            P = [(a * A[x] + b * B[x]) / p for x in range(3)]
+            return dict(p=p, PA=P[c] - A[c], PC=P[c] - pts[n, c], P=P, a=a, b=b)
+
+        def cand_v(idx, tail):
+            m = idx[0]
+            out_ = []
+            for c in (2, 1, 0):
+                ac = idx[1 + c]
+                if ac.is_const() and ac.c == 0:
+                    continue
+                g = geom(c, *tail)
+                low = list(idx)
+                low[1 + c] = ac - 1
+                up = list(low)
+                up[0] = m + 1
+                rhs = g["PA"] * C.atom(*(tuple(low) + (tail,))) - g["PC"] * C.atom(*(tuple(up) + (tail,)))
+                coef = ac - 1
+                if not (coef.is_const() and coef.c == 0):
+                    low2, up2 = list(low), list(up)
+                    low2[1 + c] = ac - 2
+                    up2[1 + c] = ac - 2
+                    rhs = rhs + coef.to_sym() / (g["p"] * 2) * (C.atom(*(tuple(low2) + (tail,))) - C.atom(*(tuple(up2) + (tail,))))
+                out_.append(("the vertical relation raising a_%s" % "xyz"[c], rhs, [ac - 1]))
+            return out_
+
+        def base_v(idx, tail):
+            if all(e.is_const() and e.c == 0 for e in idx[1:]):
+                g = geom(0, *tail)
+                ab2 = sum(((A[x] - B[x]) * (A[x] - B[x]) for x in range(3)), S.lift(0))
+                return M.SF.pi * 2 / g["p"] * C.named_atom("F", idx[0], tail) * M.SF.exp(-(g["a"] * g["b"] / g["p"]) * ab2)
+            return None
+
+        def dom_v(env, m, ax, ay, az):
+            return z3.And(m >= 0, ax >= 0, ay >= 0, az >= 0, m + ax + ay + az <= env("la") + env("lb"))
+
+        def dom_h(env, bx, by, bz, ax, ay, az):
+            return z3.And(bx >= 0, by >= 0, bz >= 0, ax >= 0, ay >= 0, az >= 0, bx <= env("lb"), by <= env("lb"), bz <= env("lb"),
+                          bx + by + bz + ax + ay + az <= env("la") + env("lb"))
+
+        doms = {0: dom_v, 1: dom_h}
+        retv = dict(kind="read", tid=0, idx=(G.Aff.of(0), G.Aff.var("rx"), G.Aff.var("ry"), G.Aff.var("rz")), loops=[], seq=None, bounds=[],
+                    cons=[("ge", G.Aff.var(v), G.Aff.of(0)) for v in ("rx", "ry", "rz")] + [("lt", G.Aff.var("rx") + G.Aff.var("ry") + G.Aff.var("rz"), la + lb + 1)])
+        check_events(M, C, sizes, vt, cand_v, base_v, pfx=pfx + "/vertical", domain=dom_v, tid=0, domains=doms, returned=[retv])
+
+        def pnorm(alpha, l):
+            return ((alpha * 2 / M.SF.pi) ** S.Fraction(3, 4) if hasattr(S, "Fraction") else None)
+
+        from fractions import Fraction
+
+        def Nprim(alpha, l):
+            return (alpha * 2 / M.SF.pi) ** Fraction(3, 4) * (S.lift(alpha * 4) ** G.ExtExp(l, 2))
+
+        def base_h(idx, tail):
+            if all(e.is_const() and e.c == 0 for e in idx[:3]):
+                n, ma, mb = tail
+                tot = S.lift(0)
+                for pa in range(Ka):
+                    for pb in range(Kb):
+                        tot = tot + C.atom(G.Aff.of(0), idx[3], idx[4], idx[5], (n, pb, pa)) * Nprim(ea[pa], la) * da[pa, ma] * Nprim(eb[pb], lb) * db[pb, mb]
+                return tot
+            return None
+
+        def cand_h(idx, tail):
+            out_ = []
+            for i in (2, 1, 0):
+                bi = idx[i]
+                if bi.is_const() and bi.c == 0:
+                    continue
+                low = list(idx)
+                low[i] = bi - 1
+                up = list(low)
+                up[3 + i] = idx[3 + i] + 1
+                rhs = C.named_atom("S1", *(tuple(up) + (tail,))) + (A[i] - B[i]) * C.named_atom("S1", *(tuple(low) + (tail,)))
+                out_.append(("the horizontal relation raising b_%s" % "xyz"[i], rhs, [bi - 1]))
+            return out_
+
+        ret = out.reads[0]
+        check_events(M, C, sizes, ht, cand_h, base_h, pfx=pfx + "/horizontal", domain=dom_h, tid=1, domains=doms, returned=[ret], returned_on_domain_only=True)
+        # the result: index map, extent, and value = H / sqrt(double factorials)
+        pv = [G.Aff.var("p%d" % s_) for s_ in (9, 8, 7, 6, 5, 4)]  # result axes a_x a_y a_z b_x b_y b_z
+        want = [pv[3].key(), pv[4].key(), pv[5].key(), pv[0].key(), pv[1].key(), pv[2].key()]
+        M.true(pfx + "/result/index-map", [e.key() for e in ret["idx"]] == want, "result[a, b] is element H[b, a] of the horizontal table: %r" % (ret["idx"],))
+        env0, _ = G._z3env()
+        zs = [e.z3(env0) for e in pv]
+        st, mdl = G.check_valid(_sizes_premise(env0, sizes) + [z >= 0 for z in zs],
+                                G._cons_z3(ret["cons"], env0) == z3.And([z <= env0("la") for z in zs[:3]] + [z <= env0("lb") for z in zs[3:]]))
+        M._rec(pfx + "/result/extent-is-(la+1)^3x(lb+1)^3", st, "z3-lia", G.LAST_SECS[0], detail=mdl or "", cex=_cex(mdl))
+        # what a caller may select - components with |a| = l_a, |b| = l_b - is returned and specified
+        dom_sel = dom_h(env0, zs[3], zs[4], zs[5], zs[0], zs[1], zs[2])
+        st, mdl = G.check_valid(_sizes_premise(env0, sizes) + [z >= 0 for z in zs] + [zs[0] + zs[1] + zs[2] == env0("la"), zs[3] + zs[4] + zs[5] == env0("lb")],
+                                z3.And(G._cons_z3(ret["cons"], env0), dom_sel))
+        M._rec(pfx + "/result/components-of-total-l-are-returned-and-specified", st, "z3-lia", G.LAST_SECS[0], detail=mdl or "", cex=_cex(mdl))
+        if [e.key() for e in ret["idx"]] == want and tuple(out.data.shape[-3:]) != (N, Ma, Mb):
+            M._rec(pfx + "/result/trailing-shape", "failed", "run", 0.0, cex={"env": {}}, detail="%s instead of %s" % (out.data.shape[-3:], (N, Ma, Mb)))
+        elif [e.key() for e in ret["idx"]] == want:
+            den = S.lift(1)
+            for e in pv:
+                den = den * _dfact_atom(e.to_sym() * 2 - 1)
+            for tail in ht:
+                got = out.data[(0,) * (out.data.ndim - 3) + tail]
+                atom = C.named_atom("S1", pv[3], pv[4], pv[5], pv[0], pv[1], pv[2], tail)
+                M.eq(pfx + "/result/value" + str(list(tail)), got * got * den, atom * atom)
+                M.eq(pfx + "/result/value-sign" + str(list(tail)), got * den.sqrt(), atom)
